@@ -55,6 +55,16 @@ def run(ctx) -> None:
         for f in sorted((core.VERIF / "corpus" / "C04").glob("*.py")):
             shutil.copy(f, d / ("c04_" + f.name))
             names.append("c04_" + f.name)
+        # idioms of different checks nested inside each other's operands and inside f-strings, calls, comprehensions
+        # (the C04 context generator): cross-check interference needs such nestings to show
+        from . import c04
+
+        nested = c04.build_cases(ctx.rng("c10-nested"), True)
+        for k in range(0, len(nested), 60):
+            text = c04.PRELUDE + "".join(c04.locate(c["src"])[0] + "\n" for c in nested[k : k + 60])
+            name = f"nest_{k // 60}.py"
+            (d / name).write_text(text)
+            names.append(name)
         (d / "pyproject.toml").write_text("")
         # refurb's own data directory holds files that need each other (module pairs); lint them all together
         shuffled = codes[:]
@@ -101,7 +111,7 @@ def run(ctx) -> None:
     full_lines = [(x["file"], x["line"], x["col"], f"{x['prefix']}{x['code']}", x["msg"]) for x in full_diags]
     res.bump("full_diagnostics", len(full_lines))
     res.bump("files", len(names))
-    how = "copy /repo/test/data*/*.py (renamed td_<dir>_<name>) and /verif/corpus/C04/*.py (as c04_*.py) into an empty directory with an empty pyproject.toml; run python -m refurb *.py --quiet ARGV and compare with the --enable-all run"
+    how = "copy /repo/test/data*/*.py (renamed td_<dir>_<name>), the nested-idiom files written by harness/props/c10.py (c04.build_cases) and /verif/corpus/C04/*.py (as c04_*.py) into an empty directory with an empty pyproject.toml; run python -m refurb *.py --quiet ARGV and compare with the --enable-all run"
     group_reports: list[list[dict[str, Any]]] = []
     for (label, argv, sel), (rc_s, diags, other_s, err_s) in zip(selections, results):
         selset = set(sel)
